@@ -7,7 +7,7 @@ props = [json.loads(l) for l in open(os.path.join(V, 'properties.jsonl'))]
 CHECKS = {
  'C05': dict(
    category='model_checking', design_ref='DESIGN.md §5.5, §10',
-   technique='TLA+ specs (specs/Auth/Auth.tla, Restrict.tla) model-checked with TLC; TLC behaviours replayed into a real SSHServerConnection with state comparison; credential-restriction decision table replayed row by row against a real server with real keys/certificates; property monitors on observations',
+   technique='TLA+ specs (specs/Auth/Auth.tla, Restrict.tla, AuthClient.tla) model-checked with TLC; every configuration of the client-side model replayed with a real client against a real or scripted raw server; TLC behaviours replayed into a real SSHServerConnection with state comparison; credential-restriction decision table replayed row by row against a real server with real keys/certificates; property monitors on observations',
    text='TLC exhausts the Auth specification (every sequence of <=3-4 auth messages over 2 users x methods x credential/signature classes, every chunking, every interleaving with executor and validator completions) against AuthSound/GateUntilAuth/GrantStable; sampled behaviours of the same spec are replayed step by step into the real server with the implementation state projected onto the spec variables after every step, so the exhaustive result transfers to the code on the replayed behaviours. The clause on credential restrictions has its own decision-table spec (Restrict.tla: credential kind x authorized_keys options x certificate extensions/critical options -> allowed operations and forced command; 13 invariants, 4 wrong-rule variants rejected), every row of which is executed against a real server. Right level because the property quantifies over schedules and histories.',
    note='Trusted: TLC, the harness event loop (real asyncio scheduling code with virtual selector), truthful application validators, raw peer built on asyncssh transport for its own side only. Bounded: 2 users, <=4 messages.'),
  'C07': dict(
@@ -17,7 +17,7 @@ CHECKS = {
    note='Trusted: TLC, virtual loop, hooks pkt_out/pkt_in for packet boundaries. Bounded windows/units; x1 and x1024 byte scaling. Writer=server channel, reader=client channel (same class).'),
  'C08': dict(
    category='model_checking', design_ref='DESIGN.md §5.8',
-   technique='TLA+ spec (specs/Channel) with rogue peer and liveness under weak fairness, checked with TLC; behaviours replayed into a real pair; raw peer with extreme window/packet sizes and data beyond the window',
+   technique='TLA+ spec (specs/Channel, incl. the writer water marks) with rogue peer and liveness under weak fairness, checked with TLC; behaviours replayed into a real pair (spec->code); executions recorded from naturally scheduled sessions validated by TLC against the spec (code->spec, ChannelTrace.tla, binding controls); raw peer with extreme window/packet sizes and data beyond the window',
    text='TLC exhausts window accounting invariants (never send beyond granted window / packet size, never accept beyond advertised window incl. while paused) with a peer that ignores the window, and the liveness property NoDeadlock under weak fairness; honest and rogue behaviours are replayed into the real code with state comparison; a raw peer drives a real server with window/packet size in {0,1,2,2^32-1} and with excess data in five shapes, paused and unpaused.',
    note='Trusted: TLC, virtual loop, raw peer built on asyncssh transport for its own side only. Liveness on the code is checked as drain-completeness, not as a temporal property.'),
  'C09': dict(
@@ -42,7 +42,7 @@ CHECKS = {
    note='Trusted: TLC, key/certificate generation by asyncssh for materialisation, fixed clock. Known calibration: a certificate whose certified key is @revoked is accepted (outside C04 as stated).'),
  'C12': dict(
    category='model_checking', design_ref='DESIGN.md §5.12',
-   technique='TLA+ model of the parallel SFTP I/O scheduler (specs/SftpIO) model-checked with TLC; behaviours replayed against the real client with a scripted SFTP peer answering in TLC order',
+   technique='TLA+ models of the parallel SFTP I/O scheduler and of the recursive copy driver (specs/SftpIO: SftpIO.tla, SftpTree.tla) model-checked with TLC; behaviours replayed against the real client with a scripted SFTP peer answering in TLC order; tree x flag cases replayed on real file systems; recorded natural transfers validated by TLC (SftpIOTrace.tla, code->spec)',
    text='TLC exhausts file size x block size x max_requests x answer pattern (full/short/EOF/error) x completion order x sparse layouts against Read/Write/CopyCorrect, FailLoud, NoLostTask, Progress (three sensitivity variants rejected); thousands of behaviours are replayed into SFTPClientFile.read/write and get/put/copy (sparse and non-sparse, SFTP v3-v6, several byte scalings) with a scripted peer holding every READ/WRITE; the verdict is destination bytes vs exception/return.',
    note='Trusted: TLC, scripted SFTP peer of drivers/sftp_io.py. Not covered: server-side copy-data shortcut, append mode, local source shrinking during put.'),
  'C14': dict(
@@ -97,7 +97,7 @@ CHECKS = {
    note='Trusted: TLC, OpenSSH ssh -G (advisory). One known finding: the second (canonical/final) pass restarts from scratch (known_findings.json).'),
  'C20': dict(
    category='model_checking', design_ref='DESIGN.md §5.20',
-   technique='TLA+ models of a forwarded connection, of several listeners on one connection, the forwarding permission table and the SOCKS parser (specs/Forward) model-checked with TLC; behaviours/rows/inputs replayed on the in-memory network against real forwarders, listeners and a real server',
+   technique='TLA+ models of a forwarded connection, of several listeners on one connection, of X11 forwarding, the forwarding permission table and the SOCKS parser (specs/Forward) model-checked with TLC; recorded natural forwards validated by TLC (ForwardTrace.tla, code->spec); behaviours/rows/inputs replayed on the in-memory network against real forwarders, listeners and a real server',
    text='TLC exhausts interleavings of data/EOF/close/reset from both ends incl. early data and late confirm/refusal and SSH cut (RelayFIFO, HalfClose, CloseBoth, Released, NoListenerLeft; four variants rejected), the 504-row permission table (request kind x key options x certificate x application answer x destination) and 4.7k SOCKS parser states; behaviours are replayed with manual packet delivery on local/remote/SOCKS4/4a/5/UNIX forwards with step-by-step comparison, every permission row runs against a real server with real key options/certificates, and every SOCKS input is fed whole, split and byte by byte.',
    note='Trusted: TLC, in-memory sockets of the virtual loop as TCP/UNIX ends (thorough adds real loopback sockets). Over-restrictive refusals are divergences, not violations.'),
  'C10': dict(
